@@ -19,6 +19,9 @@ type zzOp struct {
 	Path string
 	Name string
 	Alts [][]int
+	// Mention: further schemes the operation's requirement names in the document - in alternatives that are left
+	// out because they also need an unimplemented scheme type; the server may consult them
+	Mention []int
 }
 
 type zzSec struct {
@@ -76,6 +79,9 @@ func HGate(opIdx, mode int) {
 		for _, s := range alt {
 			used[s] = true
 		}
+	}
+	for _, s := range op.Mention {
+		used[s] = true
 	}
 	// position of each scheme among the operation's schemes (order of first mention)
 	pos := make([]int, n)
